@@ -346,5 +346,37 @@ impl ReceiverInner {
 //@@ end
 }
 
+// ---- link/receiver_link.rs: is_section_header (which three octets start a message section) ----
+//@@ type file=fe2o3-amqp/src/link/receiver_link.rs kind=const name=DESCRIBED_TYPE enumcast=serde_amqp/src/format_code.rs:EncodingCodes
+//@@ end
+//@@ type file=fe2o3-amqp/src/link/receiver_link.rs kind=const name=SMALL_ULONG_TYPE enumcast=serde_amqp/src/format_code.rs:EncodingCodes
+//@@ end
+//@@ type file=fe2o3-amqp/src/link/receiver_link.rs kind=const name=ULONG_TYPE enumcast=serde_amqp/src/format_code.rs:EncodingCodes
+//@@ end
+//@@ type file=fe2o3-amqp/src/link/receiver_link.rs kind=const name=HEADER_CODE
+//@@ end
+//@@ type file=fe2o3-amqp/src/link/receiver_link.rs kind=const name=DELIV_ANNOT_CODE
+//@@ end
+//@@ type file=fe2o3-amqp/src/link/receiver_link.rs kind=const name=MSG_ANNOT_CODE
+//@@ end
+//@@ type file=fe2o3-amqp/src/link/receiver_link.rs kind=const name=PROP_CODE
+//@@ end
+//@@ type file=fe2o3-amqp/src/link/receiver_link.rs kind=const name=APP_PROP_CODE
+//@@ end
+//@@ type file=fe2o3-amqp/src/link/receiver_link.rs kind=const name=DATA_CODE
+//@@ end
+//@@ type file=fe2o3-amqp/src/link/receiver_link.rs kind=const name=AMQP_SEQ_CODE
+//@@ end
+//@@ type file=fe2o3-amqp/src/link/receiver_link.rs kind=const name=AMQP_VAL_CODE
+//@@ end
+//@@ type file=fe2o3-amqp/src/link/receiver_link.rs kind=const name=FOOTER_CODE
+//@@ end
+/// AMQP 1.0 part 3, 3.2: the nine message sections have the descriptors 0x70 (header) .. 0x78 (footer), written as smallulong (0x53) or ulong (0x80) behind the described-type constructor 0x00
+pub open spec fn spec_is_section_header(b0: u8, b1: u8, b2: u8) -> bool { b0 == 0x00 && (b1 == 0x53 || b1 == 0x80) && 0x70 <= b2 <= 0x78 }
+//@@ fn file=fe2o3-amqp/src/link/receiver_link.rs name=is_section_header
+//@@ spec
+    ensures r == spec_is_section_header(b0, b1, b2),      // [C10.sections.header-recognised] a section starts exactly where the three octets 00, 53|80, 70..78 stand: all nine sections, both descriptor widths, nothing else (the section count a resuming receiver reports is built on it)
+//@@ end
+
 } // verus!
 fn main() {}
